@@ -241,7 +241,7 @@ func checkSorting(c *core.Ctx, prefix string, fn *ssa.Function, floorModes []str
 		coll ssa.Value
 	}
 	var sorts []sortCall
-	for _, ci := range core.Calls(fn) {
+	for _, ci := range core.CallsR(fn) {
 		cv := core.CallValue(ci)
 		if cv == nil || !(core.IsPkgFunc(ci, "sort", "Slice") || core.IsPkgFunc(ci, "sort", "SliceStable") || core.IsPkgFunc(ci, "slices", "SortFunc")) {
 			continue
@@ -311,7 +311,7 @@ func checkSorting(c *core.Ctx, prefix string, fn *ssa.Function, floorModes []str
 			c.OK(ck, p.Pos(sc.less.Pos()), "less is exactly the "+mname+" order on all 7 feasible key relations")
 		}
 		// sortedemit: key emissions (stores of a string into Token.Str that derive from the sorted collection or from the iterator) behind the sort
-		core.Instrs(fn, func(in ssa.Instruction) {
+		core.InstrsR(fn, func(in ssa.Instruction) {
 			st, ok := in.(*ssa.Store)
 			if !ok {
 				return
@@ -324,13 +324,19 @@ func checkSorting(c *core.Ctx, prefix string, fn *ssa.Function, floorModes []str
 				return
 			}
 			// a map key emission: the stored string derives from a MapIterator key or from the collected entries
+			// provenance is judged from the function that emits (its parameters are leaves): in the recursive encoder the
+			// node parameter of marshal is, seen from the entry point, also "something out of a map's entries"
+			rgS := core.RegionOf(st.Parent())
 			isKey := false
-			for w := range core.BackSlice(st.Val, core.SliceOpts{ThroughCalls: true, Stores: true}) {
-				if cl, ok := w.(*ssa.Call); ok && cl.Call.IsInvoke() && cl.Call.Method.Name() == "Next" {
-					isKey = true
+			for w := range core.BackSlice(st.Val, core.SliceOpts{ThroughCalls: true, Stores: true, Region: rgS}) {
+				// result 0 of MapIterator.Next is the key (result 1, the value, may well be a string node emitted elsewhere)
+				if ex, ok := w.(*ssa.Extract); ok && ex.Index == 0 {
+					if cl, ok := ex.Tuple.(*ssa.Call); ok && cl.Call.IsInvoke() && cl.Call.Method.Name() == "Next" && cl.Call.Signature().Results().Len() == 3 {
+						isKey = true
+					}
 				}
 			}
-			fromColl := sameBuffer(st.Val, sc.coll)
+			fromColl := sameBufferR(rgS, st.Val, sc.coll)
 			if !isKey && !fromColl {
 				return
 			}
@@ -492,21 +498,22 @@ func runC02(c *core.Ctx) {
 		checkRegisteredConsts(c, enc, "EncodeOptions", map[string]string{"MapSortMode": modeConst("RFC7049"), "AllowLinks": "true"})
 	}
 
-	if mm := p.Func(rel, "", "marshalMap"); mm != nil {
+	// the exported encoder entry; marshal, marshalMap and any helper split off them are expanded into it (core/region.go)
+	if mm := p.Func(rel, "", "Marshal"); mm != nil {
 		checkSorting(c, "C02", mm, []string{"Lexical", "RFC7049"})
 	} else {
 		c.Rule("C02.comparator", "", 2)
 	}
 
 	c.Rule("C02.uint", "the Kind_Int arms of marshal and EncodedLength probe datamodel.UintNode before relying on AsInt (sibling agreement: the predictor must accept what the encoder accepts)", 2)
-	for _, name := range []string{"marshal", "EncodedLength"} {
+	for _, name := range []string{"Marshal", "EncodedLength"} {
 		fn := p.Func(rel, "", name)
 		if fn == nil {
 			c.Undecided(rel+"."+name, "-", "not found")
 			continue
 		}
 		probes := false
-		core.Instrs(fn, func(in ssa.Instruction) {
+		core.InstrsR(fn, func(in ssa.Instruction) {
 			if ta, ok := in.(*ssa.TypeAssert); ok {
 				if nt := namedOfType(ta.AssertedType); nt != nil && nt.Obj().Name() == "UintNode" {
 					probes = true
@@ -517,12 +524,12 @@ func runC02(c *core.Ctx) {
 	}
 
 	c.Rule("C02.link", "in the encoder's link arm: the emission (sink.Step of the tagged token) is dominated by the true edge of Cid.Defined(); Token.Tag is stored from the package's link-tag constant; Token.Bytes is append([]byte{0}, cid bytes...) (exactly one zero prefix byte); and after Token.Tagged was set, every path to a return passes a store clearing it (the token is shared by the whole encode)", 4)
-	if fn := p.Func(rel, "", "marshal"); fn != nil {
+	if fn := p.Func(rel, "", "Marshal"); fn != nil { // the entry point with its workers expanded
 		key := core.FuncKey(fn)
 		var setTagged, clrTagged []*ssa.Store
 		var tagStores []*ssa.Store
 		var bytesStores []*ssa.Store
-		core.Instrs(fn, func(in ssa.Instruction) {
+		core.InstrsR(fn, func(in ssa.Instruction) {
 			st, ok := in.(*ssa.Store)
 			if !ok {
 				return
@@ -585,11 +592,11 @@ func runC02(c *core.Ctx) {
 			c.Check(len(elems) == 1 && elems[0] == 0, fmt.Sprintf("%s#link-prefix%d", key, i+1), p.Pos(st.Pos()), "exactly one 0x00 multibase prefix byte", fmt.Sprintf("the link bytes are prefixed with %v instead of exactly one zero byte", elems))
 		}
 	} else {
-		c.Undecided(rel+".marshal", "-", "not found")
+		c.Undecided(rel+".Marshal", "-", "not found")
 	}
 
 	var entries []*ssa.Function
-	for _, n := range []string{"Encode", "Marshal", "marshal", "marshalMap"} {
+	for _, n := range []string{"Encode", "Marshal"} { // everything they reach statically in the package is followed
 		entries = append(entries, p.Func(rel, "", n))
 	}
 	entries = append(entries, p.Func(rel, "EncodeOptions", "Encode"))
@@ -597,7 +604,7 @@ func runC02(c *core.Ctx) {
 	c.Rule("C02.freshtoken", "Marshal allocates the token it threads through the whole encode itself (a local), so no token state survives from another call", 1)
 	if fn := p.Func(rel, "", "Marshal"); fn != nil {
 		for _, ci := range core.Calls(fn) {
-			if cal := ci.Common().StaticCallee(); cal != nil && cal.Name() == "marshal" {
+			if cal := core.HelperCallee(fn, ci); cal != nil {
 				for _, a := range ci.Common().Args {
 					if isTokenPtr(a.Type()) {
 						_, isAlloc := core.Strip(a).(*ssa.Alloc)
@@ -651,12 +658,69 @@ func byteLiteral(v ssa.Value) []int64 {
 	return out
 }
 
+// headLengthRole finds, by what they are, the function that predicts the size of a CBOR head and the table it walks:
+// a function of the codec package that EncodedLength (exported) calls statically, taking one integer and returning one
+// integer, whose body reads a package-level slice/array of two-integer-field structs.
+func headLengthRole(p *core.Program, rel string) (ul *ssa.Function, table *ssa.Global, elem *types.Named) {
+	el := p.Func(rel, "", "EncodedLength")
+	if el == nil {
+		return nil, nil, nil
+	}
+	isInt := func(t types.Type) bool {
+		b, ok := t.Underlying().(*types.Basic)
+		return ok && b.Info()&types.IsInteger != 0
+	}
+	for _, ci := range core.CallsR(el) {
+		g := ci.Common().StaticCallee()
+		if g == nil || len(g.Blocks) == 0 || core.FuncPkg(g) != core.FuncPkg(el) {
+			continue
+		}
+		sig := g.Signature
+		if sig.Params().Len() != 1 || sig.Results().Len() != 1 || !isInt(sig.Params().At(0).Type()) || !isInt(sig.Results().At(0).Type()) {
+			continue
+		}
+		var tbl *ssa.Global
+		var et *types.Named
+		core.Instrs(g, func(in ssa.Instruction) {
+			for _, op := range in.Operands(nil) {
+				gl, ok := (*op).(*ssa.Global)
+				if !ok {
+					continue
+				}
+				var e types.Type
+				switch u := gl.Type().(*types.Pointer).Elem().Underlying().(type) {
+				case *types.Slice:
+					e = u.Elem()
+				case *types.Array:
+					e = u.Elem()
+				}
+				if e == nil {
+					continue
+				}
+				if st, ok := e.Underlying().(*types.Struct); ok && st.NumFields() == 2 && isInt(st.Field(0).Type()) && isInt(st.Field(1).Type()) {
+					tbl, et = gl, namedOfType(e)
+				}
+			}
+		})
+		if tbl != nil && et != nil {
+			return g, tbl, et
+		}
+	}
+	return nil, nil, nil
+}
+
 func checkLengthTable(c *core.Ctx, rel string) {
 	p := c.P
 	sp := p.Pkg(rel)
 	if sp == nil {
 		return
 	}
+	ulFn, tblG, elemT := headLengthRole(p, rel)
+	if ulFn == nil {
+		c.Undecided(rel+"#head-length-table", "-", "no function called by EncodedLength that maps an integer to a head size through a package-level table of (bound, size) rows was found")
+		return
+	}
+	isRowType := func(t types.Type) bool { nt := namedOfType(t); return nt != nil && nt.Obj() == elemT.Obj() }
 	// find the global of type []boundaryLength-like initialised in init with (uint64, int64) pairs
 	type row struct{ bound, length string }
 	var rows []row
@@ -674,8 +738,7 @@ func checkLengthTable(c *core.Ctx, rel string) {
 			if !ok {
 				return
 			}
-			nt := namedOfType(ia.Type())
-			if nt == nil || nt.Obj().Name() != "boundaryLength" {
+			if !isRowType(ia.Type()) {
 				return
 			}
 			i, _ := core.ConstInt(ia.Index)
@@ -700,8 +763,7 @@ func checkLengthTable(c *core.Ctx, rel string) {
 				if !isIA {
 					return
 				}
-				nt := namedOfType(fa.X.Type())
-				if nt == nil || nt.Obj().Name() != "boundaryLength" {
+				if !isRowType(fa.X.Type()) {
 					return
 				}
 				i, _ = core.ConstInt(ia.Index)
@@ -741,15 +803,15 @@ func checkLengthTable(c *core.Ctx, rel string) {
 			}
 		}
 	}
-	c.Check(ok, rel+".lengthBoundaries#table", p.Pos(pos), "table equals the CBOR head boundaries", fmt.Sprintf("head-size table is %v, the CBOR head sizes are %v", rows, want))
-	if fn := p.Func(rel, "", "uintLength"); fn != nil {
+	c.Check(ok, rel+"."+tblG.Name()+"#table", p.Pos(pos), "table equals the CBOR head boundaries", fmt.Sprintf("head-size table is %v, the CBOR head sizes are %v", rows, want))
+	if fn := ulFn; fn != nil {
 		strict := false
 		for _, e := range core.IfEdges(fn) {
 			if r, ok := core.EdgeRel(e); ok && e.Succ == 0 && r.Op == token.LSS {
 				strict = true
 			}
 		}
-		c.Check(strict, rel+".uintLength#strict-bound", p.Pos(fn.Pos()), "first row with value < bound", "uintLength does not select rows by a strict '<' comparison with the bound (boundary values 24, 256, 65536, 2^32 get the wrong head size)")
+		c.Check(strict, rel+"."+fn.Name()+"#strict-bound", p.Pos(fn.Pos()), "first row with value < bound", "uintLength does not select rows by a strict '<' comparison with the bound (boundary values 24, 256, 65536, 2^32 get the wrong head size)")
 	}
 }
 
@@ -824,7 +886,7 @@ func sameExpr(a, b ssa.Value) bool {
 func checkLengthTerms(c *core.Ctx, rel string) {
 	p := c.P
 	fn := p.Func(rel, "", "EncodedLength")
-	ul := p.Func(rel, "", "uintLength")
+	ul, _, _ := headLengthRole(p, rel)
 	if fn == nil || ul == nil {
 		c.Undecided(rel+".EncodedLength", "-", "not found")
 		return
@@ -966,7 +1028,7 @@ func runC04(c *core.Ctx) {
 	c.Rule("C04.reserved", "writer's and reader's tables agree: the constant strings the encoder stores into Token.Str for the reserved forms (the slash key and the bytes key) are exactly the constants the decoder's look-ahead functions compare token strings against; the base64 encoding object the encoder calls EncodeToString on is the one the decoder calls DecodeString on first", 2)
 	wrote := map[string]bool{}
 	if mf := p.Func(rel, "", "Marshal"); mf != nil {
-		core.Instrs(mf, func(in ssa.Instruction) {
+		core.InstrsR(mf, func(in ssa.Instruction) {
 			if st, ok := in.(*ssa.Store); ok {
 				if fa, ok := st.Addr.(*ssa.FieldAddr); ok && core.FieldName(fa) == "Token.Str" {
 					if s, isS := core.ConstString(st.Val); isS {
@@ -978,22 +1040,56 @@ func runC04(c *core.Ctx) {
 	}
 	read := map[string]bool{}
 	var decFirst, encEnc string
+	// decoder side, by role: every function of the package statically reachable from the exported decode entry points;
+	// a "recognised reserved string" is a constant that a token's Str field is compared with
+	decFns := map[*ssa.Function]bool{}
+	var work []*ssa.Function
+	for _, n := range []string{"Decode", "Unmarshal"} {
+		work = append(work, p.Func(rel, "", n))
+	}
+	work = append(work, p.Func(rel, "DecodeOptions", "Decode"))
+	for len(work) > 0 {
+		f := work[len(work)-1]
+		work = work[:len(work)-1]
+		if f == nil || decFns[f] || len(f.Blocks) == 0 {
+			continue
+		}
+		if pk := core.FuncPkg(f); pk == nil || core.RelPkg(pk.Path()) != rel {
+			continue
+		}
+		decFns[f] = true
+		for _, ci := range core.Calls(f) {
+			work = append(work, ci.Common().StaticCallee())
+		}
+		work = append(work, f.AnonFuncs...)
+	}
+	isTokStr := func(v ssa.Value) bool {
+		u, ok := core.Strip(v).(*ssa.UnOp)
+		if !ok || u.Op != token.MUL {
+			return false
+		}
+		fa, ok := u.X.(*ssa.FieldAddr)
+		return ok && core.FieldName(fa) == "Token.Str"
+	}
 	for _, fn := range p.ModFns {
 		pk := core.FuncPkg(fn)
 		if pk == nil || core.RelPkg(pk.Path()) != rel {
 			continue
 		}
-		if strings.Contains(strings.ToLower(fn.Name()), "lookahead") {
-			for _, e := range core.IfEdges(fn) {
-				if r, ok := core.EdgeRel(e); ok && (r.Op == token.EQL || r.Op == token.NEQ) {
-					for _, side := range []ssa.Value{r.X, r.Y} {
-						if s, isS := core.ConstString(side); isS {
+		if decFns[fn] {
+			for _, b := range fn.Blocks {
+				if core.BlockIf(b) == nil {
+					continue
+				}
+				if r, ok := core.EdgeRel(core.Edge{From: b, Succ: 0}); ok && (r.Op == token.EQL || r.Op == token.NEQ) {
+					for _, pair := range [][2]ssa.Value{{r.X, r.Y}, {r.Y, r.X}} {
+						if s, isS := core.ConstString(pair[0]); isS && isTokStr(pair[1]) {
 							read[s] = true
 						}
 					}
 				}
 			}
-			first := true
+			first := decFirst == ""
 			for _, ci := range core.Calls(fn) {
 				if core.IsMethod(ci, "encoding/base64", "Encoding", "DecodeString") && first {
 					first = false
